@@ -22,7 +22,9 @@ FLOORS = {'quick': {'implicit:text-parent': 700, 'enum': 110000, 'enum-sampled':
 REQUIRED_MONITORS = ['oracle:tag-stream', 'oracle:ast', 'oracle:implicit-name-under-text-parent']
 
 PARENTS = ['ul', 'ol', 'table', 'tbody', 'thead', 'tfoot', 'tr', 'select', 'optgroup', 'p', 'span', 'em', 'div', 'section', 'x-foo', 'li', 'td', 'a', 'b',
-           'UL', 'Table', 'TR', 'P', 'Select', 'EM', 'OL', 'tBody', 'OptGroup', 'Span', 'DIV', 'h2', 'ns:ul', 'ul-x', 'x_ul']     # tag names are case-insensitive for the implicit-name table
+           'UL', 'Table', 'TR', 'P', 'Select', 'EM', 'OL', 'tBody', 'OptGroup', 'Span', 'DIV', 'h2', 'ns:ul', 'ul-x', 'x_ul',
+           # aliases of one plain element (ref_tree.ALIAS): the same alias may stand twice on one ancestor path
+           'sect', 'sect', 'bq', 'art', 'det', 'fset', 'fst', 'optg', 'str', 'btn', 'hdr', 'mn']     # tag names are case-insensitive for the implicit-name table
 LEAVES = ['div', 'p', 'span', 'li', 'td', 'x-foo', 'ns:tag', 'h1', 'i', 'strong', 'article', 'main', 'q', 'code', 'option', 'tr']
 VOIDS = ['br', 'hr', 'x-v', 'wbr']
 STYLES = ['html', 'xhtml', 'xml']
@@ -233,6 +235,15 @@ def run_shard(desc, ctx):
     try:
         if part == 0:
             text_parent_cases(mon)
+            # the alias table of the reference model must be the repository's: a changed snippet table makes the class inconclusive, not violated
+            import emmet.snippets.html as RH
+            raw = {}
+            for k, v in RH.snippets.items():
+                for nm in k.split('|'):
+                    raw[nm] = v
+            stale = {k: (v, raw.get(k)) for k, v in ref_tree.ALIAS.items() if raw.get(k) != v}
+            if stale:
+                raise core.OracleError('ref_tree.ALIAS no longer matches emmet/snippets/html.py: %r' % (stale,))
         idx = 0
         for tokens in ref_tree.skeletons(desc['n'], 2):
             idx += 1
